@@ -85,5 +85,11 @@ BENIGN = [
     ("b-reorder-match-arms-value", ALL, [(V, "            Value::String(data) => Ok(data),\n            _ => Err(Error::DataTypeError),", "            Value::String(text) => Ok(text),\n            _other => Err(Error::DataTypeError),")]),
     ("b-satisfy-arms-reordered", ALL, [(P, "        Some(&byte) if pred(byte) => Ok((&i[1..], byte)),\n        Some(_) => Err(Error::InvalidCharacter)?,\n        None => Err(ParseError::Incomplete),", "        None => Err(ParseError::Incomplete),\n        Some(&byte) if pred(byte) => Ok((&i[1..], byte)),\n        Some(_) => Err(Error::InvalidCharacter)?,")]),
     ("b-octal-class-as-range-inclusive", ALL, [(P, "satisfy(|c| (b'0'..b'8').contains(&c))(i2)?", "satisfy(|c| (b'0'..=b'7').contains(&c))(i2)?"), (P, "take_while(|c| (b'0'..b'8').contains(&c))(i3)?", "take_while(|c| matches!(c, b'0'..=b'7'))(i3)?")]),
+    ("b-process-helper-extracted", ALL, [
+        (I, "                if !res_buf.is_empty() {\n                    adapter.write(&res_buf).await?;\n                    adapter.flush().await?;\n                    res_buf.clear();\n                }",
+            "                send_response(adapter, &mut res_buf).await?;"),
+        (I, "pub trait Interface: ErrorHandler {", "/// Sends a pending response to the transport.\nasync fn send_response<const N: usize, A: Adapter>(\n    adapter: &mut A, res_buf: &mut heapless::Vec<u8, N>,\n) -> Result<(), A::Error> {\n    if !res_buf.is_empty() {\n        adapter.write(res_buf).await?;\n        adapter.flush().await?;\n        res_buf.clear();\n    }\n    Ok(())\n}\n\npub trait Interface: ErrorHandler {")]),
+    ("b-run-loop-form", ALL, [(I, "        while !input.is_empty() {\n            let result", "        loop {\n            if input.is_empty() {\n                break;\n            }\n            let result")]),
+    ("b-optional-ws-as-match", ALL, [(P, "    // Skip optional whitespace\n    let (input, _) = optional(whitespace)(input)?;\n\n    let (input, terminated)", "    // Skip optional whitespace\n    let input = match whitespace(input) {\n        Ok((i, _)) => i,\n        Err(_) => input,\n    };\n\n    let (input, terminated)")]),
     ("b-queue-overflow-match", ALL, [(Q, "            if let Some(value) = self.0.back_mut() {\n                *value = Error::QueueOverflow;\n            }", "            match self.0.back_mut() {\n                Some(newest) => *newest = Error::QueueOverflow,\n                None => {}\n            }")]),
 ]
